@@ -413,7 +413,9 @@ func (fc *funcContext) translateExpr(expr ast.Expr) *expression {
 				}
 				return fc.formatExpr("%e / %e", e.X, e.Y)
 			case token.REM:
-				return fc.formatExpr(`(%1s = %2e %% %3e, %1s === %1s ? %1s : $throwRuntimeError("integer divide by zero"))`, fc.newLocalVariable("_r"), e.X, e.Y)
+				// JavaScript yields -0 for a negative dividend that is a multiple of the divisor;
+				// adding 0 turns it into the integer zero (it would show after a conversion to a float).
+				return fc.formatExpr(`(%1s = %2e %% %3e, %1s === %1s ? %1s + 0 : $throwRuntimeError("integer divide by zero"))`, fc.newLocalVariable("_r"), e.X, e.Y)
 			case token.SHL, token.SHR:
 				op := e.Op.String()
 				if e.Op == token.SHR && isUnsigned(basic) {
